@@ -385,6 +385,12 @@ func parseLog(log []string) []logLine {
 
 // buildQuery slices the log to the cone of influence of the obligation.
 func (c *FnCtx) buildQuery(parsed []logLine, o *Obl, extra []string, full bool) string {
+	return c.buildQueryQ(parsed, o, extra, full, true)
+}
+
+// buildQueryQ: with quant=false the quantified facts (append/copy frame axioms, quantified invariants) are left
+// out; dropping facts only weakens the context, so an `unsat` answer is still a proof.
+func (c *FnCtx) buildQueryQ(parsed []logLine, o *Obl, extra []string, full bool, quant bool) string {
 	rel := map[string]bool{}
 	add := func(ss []string) {
 		for _, s := range ss {
@@ -457,6 +463,9 @@ func (c *FnCtx) buildQuery(parsed []logLine, o *Obl, extra []string, full bool) 
 	}
 	for i := 0; i < o.Prefix; i++ {
 		if keep[i] {
+			if !quant && parsed[i].kind == 'a' && (strings.Contains(parsed[i].text, "(forall ") || strings.Contains(parsed[i].text, "(exists ")) {
+				continue
+			}
 			b.WriteString(parsed[i].text + "\n")
 		}
 	}
